@@ -318,6 +318,12 @@ fn judge(o: &mut Outcome, h: &Hist, r: &HistOut) {
     for s in &h.steps {
         o.class(&format!("step:{}", format!("{s:?}").split('(').next().unwrap()));
     }
+    if h.steps.windows(2).any(|w| matches!(w[0], Step::Kill(_) | Step::Pause(_)) && matches!(w[1], Step::Use("Ks3", _)))
+        && h.steps.iter().any(|s| *s == Step::Use("Ks3", true))
+        && h.steps.iter().any(|s| *s == Step::Use("Ks3", false))
+    {
+        o.class("history:same-spelling-other-case-sensitivity");
+    }
     let mut checked = 0u64;
     let mut unspecified = 0u64;
     let mut conns_after_use: std::collections::HashSet<u64> = Default::default();
@@ -430,6 +436,23 @@ fn gen_hist(rng: &mut Rng, seed: u64) -> Hist {
         if rng.bool() {
             steps.push(Step::Pause(10 + rng.below(80)));
         }
+    }
+    // the same spelling with the other case sensitivity names ANOTHER keyspace ("Ks3" quoted is Ks3, unquoted is
+    // ks3): switched while connections are being replaced, a connection set up for the old reading must not
+    // serve requests after the switch returned
+    if seed % 4 == 1 {
+        let first_cs = rng.bool();
+        steps.push(Step::Use("Ks3", first_cs));
+        steps.push(Step::Pause(5 + rng.below(20)));
+        steps.push(Step::Kill(rng.below(2) as usize));
+        if rng.bool() {
+            steps.push(Step::Kill(1 - rng.below(2) as usize));
+        }
+        if rng.chance(2, 3) {
+            steps.push(Step::Pause(rng.below(4)));
+        }
+        steps.push(Step::Use("Ks3", !first_cs));
+        steps.push(Step::Pause(40 + rng.below(60)));
     }
     Hist { steps, per_shard: rng.usize(1, 2), delay_pm: *rng.pick(&[0u64, 300, 700]), workers: rng.usize(2, 6), seed }
 }
@@ -592,7 +615,7 @@ pub fn run(ctx: &Ctx) -> Outcome {
         }
     }
     rt.block_on(validation(&mut out, ctx));
-    for c in ["keyspace-given-to-session-builder", "step:Use", "step:Kill", "step:Restart", "step:AddNode", "step:UseFailing", "step:UseSlow", "step:DownUseUp", "step:UseStatement", "requests-on-connections-opened-after-use", "use:failed-on-some-connection", "requests-on-a-node-that-owns-no-token", "name:valid", "name:invalid", "validation-part"] {
+    for c in ["keyspace-given-to-session-builder", "step:Use", "step:Kill", "step:Restart", "step:AddNode", "step:UseFailing", "step:UseSlow", "step:DownUseUp", "step:UseStatement", "history:same-spelling-other-case-sensitivity", "requests-on-connections-opened-after-use", "use:failed-on-some-connection", "requests-on-a-node-that-owns-no-token", "name:valid", "name:invalid", "validation-part"] {
         out.require_class(c);
     }
     out
